@@ -48,7 +48,7 @@ def n_bins(sc, res):
 def psd_rows(sc, res):
     """the (M, L) array of auto-spectra returned (diagonal for the csd estimators)"""
     out = res["out"]
-    if sc["est"] in ("periodogram_csd", "multi_taper_csd"):
+    if sc["est"] in ("periodogram_csd", "multi_taper_csd") or (sc["est"] == "welch" and out.ndim == 3):
         return np.einsum("iik->ik", out)
     return out.reshape(-1, out.shape[-1])
 
@@ -77,16 +77,21 @@ def mt_expected_power(sc, res):
 
 
 def welch_expected_power(sc, res):
-    """mean over segments of sum|w x|^2 / sum w^2 (matplotlib's documented Welch contract)"""
+    """per channel: mean over segments of sum|w x|^2 / sum w^2 with the REQUESTED window w (matplotlib's
+    documented Welch contract)"""
     m = sc.get("method") or {}
     nfft = m.get("NFFT", 64)
     nov = m.get("n_overlap", nfft // 2)
-    x = res["x"].reshape(-1)
-    w = np.hanning(nfft)
-    if len(x) < nfft:
-        x = np.concatenate([x, np.zeros(nfft - len(x))])
-    segs = [x[i:i + nfft] for i in range(0, len(x) - nfft + 1, nfft - nov)]
-    return [float(np.mean([(np.abs(s * w) ** 2).sum() / (w ** 2).sum() for s in segs]))]
+    w = S.welch_window(m.get("window"), nfft)[1]
+    x2 = np.asarray(res["x"])
+    x2 = x2.reshape(-1, x2.shape[-1])
+    out = []
+    for x in x2:
+        if len(x) < nfft:
+            x = np.concatenate([x, np.zeros(nfft - len(x))])
+        segs = [x[i:i + nfft] for i in range(0, len(x) - nfft + 1, nfft - nov)]
+        out.append(float(np.mean([(np.abs(s * w) ** 2).sum() / (w ** 2).sum() for s in segs])))
+    return out
 
 
 def key_for(sc, claim):
@@ -188,6 +193,20 @@ def oracle(sc, res, rng_seed=0):
             if not ok:
                 fails.append(Fail("C04/%s/equals-psd" % est, "diagonal differs from %s called with identical keywords" % s1["est"],
                                   {"relative_deviation": e}, "equal"))
+    # ---- Welch through get_spectra with several channels: the diagonal equals the single-channel result obtained
+    # with the identical method dict (window included)
+    if est == "welch" and x.ndim == 2 and x.shape[0] > 1:
+        for ch in range(x.shape[0]):
+            s1 = dict(sc)
+            S.set_data(s1, x[ch])
+            r1 = S.run_scenario(s1)
+            if r1["err"] is None:
+                ok, e = close_arr(rows[ch], np.asarray(r1["out"]).reshape(-1).real)
+                if not ok:
+                    fails.append(Fail("C04/welch/equals-psd", "diagonal entry %d differs from get_spectra of that channel alone with the "
+                                      "identical method dict" % ch, {"relative_deviation": e, "window": (sc.get("method") or {}).get("window", "default")},
+                                      "equal"))
+                    break
     # ---- fewer than 3 usable tapers: adaptive=True is documented to fall back to the fixed sqrt(eigenvalue)
     # weights, so it must equal the adaptive=False estimate (to which Parseval applies)
     if est in ("multi_taper_psd", "multi_taper_csd") and sc.get("adaptive"):
@@ -424,6 +443,54 @@ def analyzer_oracle(ctx, n_cases):
     ctx.extra["analyzer_differential_checks"] = done
 
 
+def welch_frontends_oracle(ctx, n_cases):
+    """Welch through the other front ends — get_spectra_bi and SpectralAnalyzer(method=...).cpsd — with NON-default
+    windows (window_none, an array, a callable) and two or more channels: the auto-spectra must equal get_spectra of
+    that channel alone with the identical method dict and integrate to the segment power under the requested window"""
+    import nitime.timeseries as ts
+    import nitime.algorithms.spectral as sp
+    from nitime.analysis import SpectralAnalyzer
+    rng = ctx.rng
+    done = 0
+    for i in range(n_cases):
+        tok = ["none", "array", "callable"][i % 3]
+        nfft = [16, 32, 24][i % 3]
+        n = nfft * rng.randint(2, 4) + rng.randint(0, 5)
+        M = 2 if i % 2 == 0 else 3
+        fs = rng.choice([1.0, 2.0, 250.0])
+        x = S.gen_signal(rng, [M], n, False)
+        wobj, wval = S.welch_window(tok, nfft)
+        method = {"this_method": "welch", "NFFT": nfft, "Fs": fs, "window": wobj, "n_overlap": nfft // 2}
+        rp = {"n": n, "M": M, "Fs": fs, "NFFT": nfft, "window": tok, "data": [float(v).hex() for v in x.ravel()]}
+        singles = [np.asarray(sp.get_spectra(x[c], dict(method))[1]).real for c in range(M)]
+        scw = {"est": "welch", "method": {"this_method": "welch", "NFFT": nfft, "n_overlap": nfft // 2, "window": tok}}
+        want = welch_expected_power(scw, {"x": x})
+        results = {}
+        try:
+            f, fxx, fyy, fxy = sp.get_spectra_bi(x[0], x[1], dict(method))
+            results["get_spectra_bi"] = [(0, np.asarray(fxx)), (1, np.asarray(fyy))]
+        except Exception as e:  # noqa
+            ctx.report_fail(Fail("C04/get_spectra_bi/exception", "raised %r" % e, repr(e), "spectra", dict(rp, entry_point="nitime.algorithms.spectral.get_spectra_bi")))
+        try:
+            t = ts.TimeSeries(x, sampling_rate=fs)
+            f, c = SpectralAnalyzer(t, method={"this_method": "welch", "NFFT": nfft, "window": wobj, "n_overlap": nfft // 2}).cpsd
+            c = np.asarray(c)
+            results["SpectralAnalyzer.cpsd"] = [(ch, c[ch, ch].real) for ch in range(M)]
+        except Exception as e:  # noqa
+            ctx.report_fail(Fail("C04/SpectralAnalyzer.cpsd/exception", "raised %r" % e, repr(e), "spectra", dict(rp, entry_point="nitime.analysis.SpectralAnalyzer.cpsd")))
+        for name, lst in results.items():
+            done += 1
+            for ch, p in lst:
+                ok, e = close_arr(p.real, singles[ch])
+                got = float(p.real.sum() * fs / nfft)
+                if not ok or S.rel_err(got, want[ch]) > REL:
+                    ctx.report_fail(Fail("C04/%s/welch-window" % name, "auto-spectrum of channel %d with window=%s differs from the single-channel "
+                                         "result / does not integrate to the power under the requested window" % (ch, tok),
+                                         {"relative_deviation": e, "integral": got}, {"power": want[ch]}, dict(rp, entry_point=name)))
+                    break
+    ctx.extra["welch_frontend_checks"] = done
+
+
 def validate_fft(rec):
     """numerical validation of the contract assumed of the library FFT on the recorded calls"""
     n_ok = n_bad = 0
@@ -518,6 +585,8 @@ def gen_all(ctx):
     for _ in range(ctx.scale(5, 30)):
         scs += S.runnable(lambda: S.gen_siblings(rng, rng.choice(["multi_taper_psd", "multi_taper_psd", "periodogram", "periodogram_csd"]),
                               nmax=20 if q else 48, max_ch=2 if q else 4))
+    for i in range(ctx.scale(6, 24)):
+        scs.append(S.gen_welch(rng, window=["none", "array", "callable"][i % 3], M=[2, 3, 2, 4][i % 4]))
     for _ in range(ctx.scale(8, 40)):
         sc = S.gen_welch(rng)
         if len(sc["shape"]) > 1:
@@ -555,6 +624,7 @@ def run(ctx):
         ctx.report_fail(f, c)
     ctx.extra["multitaper_calls_without_a_dpss_windows_call"] = not_seen     # then the harness computed the tapers itself
     analyzer_oracle(ctx, ctx.scale(16, 64))
+    welch_frontends_oracle(ctx, ctx.scale(6, 24))
     ctx.extra["model_impl_disagreements"] = len(bad)
     ctx.extra["fft_contract_validations"] = {"ok": nv_ok, "failed": nv_bad}
     ctx.extra["rule"] = ("seeded generator over estimator (periodogram, periodogram_csd, multi_taper_psd fixed/adaptive, Welch "
